@@ -89,7 +89,7 @@ def write_replay(prop, record):
 
 def write_evidence(prop, tier, seed, coverage, wall, violations, assumptions, level="exploration"):
     ev = dict(property_id=prop, tier=tier, seed=seed, level=level, coverage=coverage, assumptions=assumptions, wall_s=round(wall, 2), violations=violations)
-    p = os.path.join(VERIF, "evidence", "%s.json" % prop)
+    p = os.path.join(build.EVIDENCE, "%s.json" % prop)
     os.makedirs(os.path.dirname(p), exist_ok=True)
     tmp = p + ".tmp%d" % os.getpid()
     with open(tmp, "w") as f:
